@@ -57,13 +57,15 @@ def main():
         return v
 
     obs = []
-    for fname, args in getattr(mod, "CONFORMANCE", []):
+    for item in getattr(mod, "CONFORMANCE", []):
+        fname, args = item[0], item[1]
+        concrete = len(item) > 2 and item[2] == "concrete"  # inputs that reach a C extension (regex) stay concrete
         fn = getattr(mod, fname)
         args = unjson(args)
         try:
             with standalone_statespace as space:
                 with NoTracing():
-                    pargs = [pin(space, a) for a in args]
+                    pargs = list(args) if concrete else [pin(space, a) for a in args]
                 try:
                     r = fn(*pargs)
                     with NoTracing():
